@@ -40,7 +40,7 @@ BASE = {
     "i_param_scope": 2.0, "i_obj_rest_nested": 1.5, "i_switch_tdz": 1.5, "i_finally_flow": 2.0,
     "i_destruct_defaults": 2.0, "i_class_order": 2.0, "i_coerce_order": 2.0, "i_tdz_closure": 1.5,
     "i_gen_protocol": 2.0, "i_compound_member": 1.5, "i_args_object": 1.0, "i_getter_setter": 1.5,
-    "i_completion": 1.5, "i_spread_iter": 1.0, "i_label_loops": 1.0, "i_closure_loop": 1.0,
+    "i_completion": 1.5, "i_spread_iter": 1.0, "i_label_loops": 1.0, "i_closure_loop": 1.0, "i_loop_head_closure": 2.5,
     # promises / async functions (jobs run after the script, FIFO)
     "i_async_order": 1.2, "i_promise_chain": 1.2, "i_thenable": 0.8, "i_promise_comb": 0.8, "i_async_flow": 1.0, "await": 6,
     # program-level probabilities
@@ -57,7 +57,7 @@ def _preset(**kw):
 PRESETS = {
     "C01": _preset(),
     # binding placement / operand shortcuts: many locals, closures capturing them, operand clobbering
-    "C04": _preset(i_operand_clobber=5, i_tdz_closure=4, i_closure_loop=4, i_param_scope=4, i_switch_tdz=3, funcdecl=8,
+    "C04": _preset(i_operand_clobber=5, i_tdz_closure=4, i_closure_loop=4, i_loop_head_closure=6, i_param_scope=4, i_switch_tdz=3, funcdecl=8,
                    classdecl=1, generator=1, p_func_form=0.8, i_update_coerce=3, i_logassign_nested=3),
     # optimizer: constant expressions, literal conditions, completion values
     "C05": _preset(i_completion=6, i_int_edge=4, i_coerce_order=3, classdecl=1, generator=1, p_func_form=0.3, p_const_fold=0.5),
@@ -67,6 +67,8 @@ PRESETS = {
     "C20": _preset(forin=6, i_obj_rest_nested=3, i_spread_iter=3, i_getter_setter=3),
     # async / promise ordering only (C16-style programs over the C01 grammar)
     "async": _preset(i_async_order=8, i_promise_chain=8, i_thenable=5, i_promise_comb=5, i_async_flow=8, classdecl=1, generator=1, p_early_error=0),
+    # loop-head closures only (CreatePerIterationEnvironment sentinels)
+    "loops": _preset(i_loop_head_closure=30, i_closure_loop=8, p_early_error=0),
     "min": _preset(**{k: 0 for k in BASE if k.startswith("i_") or k in ("with", "eval", "classdecl", "generator")}),
 }
 
@@ -1701,6 +1703,80 @@ class Gen:
         fj = self.add_func(func(kind="FArrow", params=[(pid("f"), None)], expr_body=call(ident("f")), strict=cx.strict))
         return [let(fs, arr(), "KConst"), loop, pr(mcall(mcall(ident(fs), "map", ("EFunc", fj)), "join"))]
 
+
+    # ---------------------------------------------------------------- closures created in loop heads (CreatePerIterationEnvironment)
+    def s_i_loop_head_closure(self, sc, cx):
+        """closures created in a for-let initializer / test / update, in for-in/of heads (destructuring defaults), in switch cases and
+        catch clauses; the captured binding is written from the closure and from the loop, and read from both sides, across iterations"""
+        i = self.fresh("i")
+        fs = self.fresh("fs")
+        n = self.rng.randrange(2, 4)
+        st = cx.strict
+        k = self.weighted([("init_reader", 3), ("init_writer", 3), ("init_both", 3), ("test", 2), ("update", 2), ("forof_default", 2.5),
+                           ("forin", 1.5), ("switch_case", 1.5), ("catch_param", 1.5), ("init_const", 1)])
+        I = ident(i)
+        test = bin_("BLt", I, num(n))
+        upd = ("EUpdate", self.chance(0.5), True, I)
+        joined = pr(mcall(mcall(ident(fs), "map", self.arrow(["f"], call(ident("f")), strict=st)), "join"))
+
+        def body_write():
+            return self.pick([[], [("SExpr", ("EOpAssign", "BAdd", I, num(0)))], [("SIf", bin_("BSEq", I, num(1)), ("SExpr", ("EUpdate", False, True, I)), None)]])
+        if k in ("init_reader", "init_writer", "init_both", "init_const"):
+            g, w = self.fresh("get"), self.fresh("set")
+            decls = [(pid(i), num(0))]
+            if k in ("init_reader", "init_both", "init_const"):
+                decls.append((pid(g), self.arrow([], I, strict=st)))
+            if k in ("init_writer", "init_both"):
+                decls.append((pid(w), self.arrow(["v"], ("EAssign", pid(i), ident("v")) if self.chance(0.6) else ("EOpAssign", "BAdd", I, ident("v")), strict=st)))
+            if self.chance(0.3):
+                self.rng.shuffle(decls)
+                decls.sort(key=lambda d: d[0][1] != u(i))      # the loop variable first (a closure before it would hit the TDZ at creation? no: only at call)
+            body = []
+            if k in ("init_writer", "init_both"):
+                body.append(("SExpr", call(ident(w), bin_("BAdd", I, num(10)))))
+            body.append(pr(estr(i), I, *( [call(ident(g))] if k != "init_writer" else [])))
+            body += body_write()
+            if self.chance(0.5):
+                body.append(("SExpr", mcall(ident(fs), "push", self.arrow([], I, strict=st))))
+            if k == "init_const":
+                # const head: one environment for the whole loop
+                o = self.fresh("ob")
+                loop = ("SFor", ("FIDecl", "KConst", [(pid(o), obj(("n", num(0)))), (pid(g), self.arrow([], member(ident(o), "n"), strict=st))]),
+                        bin_("BLt", member(ident(o), "n"), num(n)), ("EUpdate", False, True, member(ident(o), "n")),
+                        ("SBlock", [pr(member(ident(o), "n"), call(ident(g))), ("SExpr", mcall(ident(fs), "push", self.arrow([], member(ident(o), "n"), strict=st)))]))
+            else:
+                loop = ("SFor", ("FIDecl", "KLet", decls), test, upd, ("SBlock", body))
+            return [let(fs, arr(), "KConst"), loop, joined]
+        if k == "test":
+            loop = ("SFor", ("FIDecl", "KLet", [(pid(i), num(0))]), ("ESeq", mcall(ident(fs), "push", self.arrow([], I, strict=st)), test), upd,
+                    ("SBlock", [pr(estr(i), I)] + body_write()))
+            return [let(fs, arr(), "KConst"), loop, joined]
+        if k == "update":
+            loop = ("SFor", ("FIDecl", "KLet", [(pid(i), num(0))]), test, ("ESeq", mcall(ident(fs), "push", self.arrow([], I, strict=st)), upd),
+                    ("SBlock", [pr(estr(i), I)] + body_write()))
+            return [let(fs, arr(), "KConst"), loop, joined]
+        if k == "forof_default":
+            a, f = self.fresh("a"), self.fresh("f")
+            pat = ("PArr", [(pid(a), None), (pid(f), self.arrow([], ident(a), strict=st))], None) if self.chance(0.6) else \
+                  ("PObj", [(("PKStr", u("a")), pid(a), None), (("PKStr", u("f")), pid(f), self.arrow([], ident(a), strict=st))], None)
+            src = arr(arr(num(1)), arr(num(2))) if pat[0] == "PArr" else arr(obj(("a", num(1))), obj(("a", num(2))))
+            body = [("SExpr", ("EOpAssign", "BAdd", ident(a), num(10))), pr(ident(a), call(ident(f))), ("SExpr", mcall(ident(fs), "push", ident(f)))]
+            return [let(fs, arr(), "KConst"), ("SForOf", ("FHDecl", "KLet", pat), src, ("SBlock", body)), joined]
+        if k == "forin":
+            kk = self.fresh("k")
+            body = [("SExpr", mcall(ident(fs), "push", self.arrow([], ident(kk), strict=st)))]
+            if self.chance(0.5):
+                body.append(("SExpr", ("EOpAssign", "BAdd", ident(kk), estr("!"))))
+            return [let(fs, arr(), "KConst"), ("SForIn", ("FHDecl", "KLet", pid(kk)), obj(("x", num(1)), ("y", num(2))), ("SBlock", body)), joined]
+        if k == "switch_case":
+            sv = self.fresh("s")
+            cases = [(num(1), [let(sv, num(5)), ("SExpr", mcall(ident(fs), "push", self.arrow([], ident(sv), strict=st))), ("SExpr", ("EUpdate", False, True, ident(sv)))]),
+                     (num(2), [("SExpr", mcall(ident(fs), "push", self.arrow([], ("EAssign", pid(sv), num(9)), strict=st))), pr(estr("c2"), ident(sv))])]
+            return [let(fs, arr(), "KConst"), ("SSwitch", num(1), cases), joined]
+        ev = "e"
+        hb = [("SExpr", mcall(ident(fs), "push", self.arrow([], ident(ev), strict=st))), ("SExpr", ("EAssign", pid(ev), num(2))),
+              ("SExpr", mcall(ident(fs), "push", self.arrow([], ("EOpAssign", "BAdd", ident(ev), num(1)), strict=st))), pr(estr("ce"), ident(ev))]
+        return [let(fs, arr(), "KConst"), ("STry", [("SThrow", num(1))], (pid(ev), hb), None), joined, joined]
 
     # ---------------------------------------------------------------- promises and async functions
     def arrow(self, params, expr_body=None, body=None, strict=False, kind="FArrow"):
